@@ -101,7 +101,7 @@ def run_c20x(case):
         return list(cls().convert(SigmaCollection.from_dicts([doc])))
     names = [FIELD_NAMES[n - 1] for n in case["names"]]
     if k in ("badcond", "filtermissing", "convnum", "validatorset", "unrefcond", "appliedids", "converr", "reflagerr", "dangling3", "attrerr",
-             "unknownvals", "tracking", "underq", "plainerr", "tmplerr"):
+             "unknownvals", "tracking", "underq", "plainerr", "tmplerr", "funcid"):
         return run_errors(k, case, names)
     if k == "strict":
         pipe = ProcessingPipeline.from_dict({"name": "p", "priority": 1, "transformations": [
@@ -261,6 +261,15 @@ def run_errors(k, case, names):
             return ["no error"]
         except SigmaError as e:
             return [text(e)]
+    if k == "funcid":  # the generated identifier of an item whose transformation holds a FUNCTION (built in Python, not loaded)
+        from sigma.processing.pipeline import ProcessingItem
+        from sigma.processing.transformations import FieldFunctionTransformation
+
+        items = [ProcessingItem(FieldFunctionTransformation(mapping={n: "m_" + n}, transform_func=lambda f: f.upper())) for n in idn]
+        pipe = ProcessingPipeline(items=items, postprocessing_items=[])
+        b = TextQueryTestBackend(pipe)
+        out = list(b.convert(SigmaCollection.from_dicts([rule])))
+        return out + [",".join(i.identifier for i in items), ",".join(sorted(pipe.applied_ids))]
     if k == "underq":
         pipe = ProcessingPipeline.from_dict({"name": "p", "priority": 1, "transformations": [{"type": "add_condition", "conditions": {"idx": "main"}}]})
         det = {"_q1": {"f": "foo"}, "_q2": {"g": "bar"}, "condition": "1 of _*q*"}
